@@ -54,6 +54,11 @@ CHECKS = {
     note="Trusted: TLC, NdArray.tla, drv_ndarray.cpp. Legacy classes, cast and mutable views are not yet driven. One configuration (clipped shape, column-major) is a known finding; the resize defect was repaired by a fix: commit.",
     technique="TLA+ state machine; TLC exhaustive exploration + transition-tour export; replay on real objects; trace validation by TLC",
     design="5/C20"),
+ "C18": dict(
+    text="Compare.tla defines isequal/isclose over the value universe (scalars, index arrays, n-d arrays, optionals, tuples); TLC checks reflexivity, symmetry, shape-awareness and element-awareness on all pairs of shapes of the scope; all pairs of arrays (same shape, same size/different shape, different sizes), element perturbations at every position, index arrays of every pair of lengths in several container pairings, optionals and tuples are executed in a build with assertions and in an NDEBUG build, and TraceOps.tla decides every returned boolean (an abort or exception is a crash event).",
+    note="Trusted: TLC, Compare.tla, drv_compare.cpp. either-typed operands are not driven. The shape-blind isequal/isclose were repaired by fix: commits.",
+    technique="TLA+ reference semantics + TLC law checking; trace validation of the real oracles in two build modes",
+    design="5/C18"),
 }
 
 NOT_APPLICABLE = {}
